@@ -212,3 +212,44 @@ Example C02_nonvacuous_stage2 :
      SImportFrom 5 [106] []; SExpr 6 (ELoad 105 [])] /\
   pysem [] [[]] P_u2 = [(2%nat, 101, Bound (BImp 3 ([103], [101]))); (6%nat, 105, Bound (BImp 4 ([104], [105])))].
 Proof. vm_compute. repeat split. Qed.
+
+
+(* ---------- stage 3: comprehensions ---------- *)
+(* Fragment.u3_block: fragment 2 with comprehensions (stage-3 statements: a comprehension wherever an expression may stand,
+   nested, in function and lambda bodies; inside a comprehension no lambda, no nested scope in its first iterable) *)
+Theorem C02_unused_sound_stage3 : forall bi ns p, u3_block p = true -> star_free bi ns = true ->
+  imports_once bi ns p = true -> NoDup (imp_events (bsrcs_block false p)) ->
+  forall l i, In (l, i) (snd (finder bi ns true p)) ->
+  forall ln n, ~ In (ln, n, Bound (BImp l i)) (pysem bi ns p).
+Proof. exact u3_unused_sound. Qed.
+Print Assumptions C02_unused_sound_stage3.
+Theorem C02_tidy_remove_preserves_trace_stage3 : forall bi ns p, u3_block p = true -> star_free bi ns = true ->
+  imports_once bi ns p = true -> NoDup (imp_events (bsrcs_block false p)) ->
+  pysem bi ns (tidy_remove bi ns p) = pysem bi ns p /\
+  forall x b, lookup_b x (final_globals bi ns p) = Some b -> removed_src (in_report (snd (finder bi ns true p))) b = false ->
+              lookup_b x (final_globals bi ns (tidy_remove bi ns p)) = Some b.
+Proof. exact tidy_remove_preserves_trace_stage3. Qed.
+Print Assumptions C02_tidy_remove_preserves_trace_stage3.
+Theorem C02_tidy_fix_preserves_trace_stage3 : forall bi ns p, u3_block p = true -> star_free bi ns = true ->
+  imports_once bi ns p = true -> NoDup (imp_events (bsrcs_block false p)) ->
+  pysem_doc bi ns (remove_top (in_report (snd (finder_doc bi ns p))) p) = pysem_doc bi ns p.
+Proof. exact tidy_fix_preserves_trace_stage3. Qed.
+Print Assumptions C02_tidy_fix_preserves_trace_stage3.
+
+(* non-vacuity of stage 3:
+     import m as a         line 1
+     import n as b         line 2: unused
+     def f(t): return [a.x + u for u in t]      lines 3-4: a read inside a comprehension inside a function
+     [v for v in c if v]   line 5: c is imported later: the module-level read is a NameError, not a use
+     import q as c         line 6: unused                                                       *)
+Definition P_u3 : program :=
+  [SImport 1 [([130], Some 131)]; SImport 2 [([132], Some 133)];
+   SDef 3 134 [] (Params [] [(135, None)] None [] None [] []) None
+     [SExpr 4 (EComp [Gen (ELoad 135 []) (TName 136) []] [EOp [ELoad 131 [137]; ELoad 136 []]])];
+   SExpr 5 (EComp [Gen (ELoad 138 []) (TName 139) [ELoad 139 []]] [ELoad 139 []]);
+   SImport 6 [([140], Some 138)]].
+Example C02_nonvacuous_stage3 :
+  u3_block P_u3 = true /\ u2_block P_u3 = false /\ imports_once [] [[]] P_u3 = true /\
+  snd (finder [] [[]] true P_u3) = [(2%nat, ([132], [133])); (6%nat, ([140], [138]))] /\
+  In (4%nat, 131, Bound (BImp 1 ([130], [131]))) (pysem [] [[]] P_u3) /\ In (5%nat, 138, Unbound) (pysem [] [[]] P_u3).
+Proof. vm_compute. repeat split; auto 20. Qed.
